@@ -56,7 +56,6 @@ TRANSLATORS = {
            "gen/TokenGen.v)",
 }
 TRANSLATORS["C03"] = TRANSLATORS["C04"] = TRANSLATORS["C01"]
-TRANSLATORS["C06"] = TRANSLATORS["C07"]
 TRANSLATORS["C20"] = TRANSLATORS["C02"]
 
 
